@@ -203,6 +203,23 @@ func c05OIDFamily() []c05Type {
 			}
 		}
 	}
+	// long object identifiers: the signed-attribute SET grows with the content type, and its DER length
+	// field changes form at 128 and at 256 octets (and every enclosing length with it): every OID
+	// size 19..120 in steps of 3, and every size 121..200 (the SET crosses 256 octets in there)
+	for size := 19; size <= 200; size++ {
+		if size < 121 && size%3 != 0 {
+			continue
+		}
+		arcs := []int{1, 3}
+		for i := 0; i < size-1; i++ {
+			arcs = append(arcs, 1+(i*5+size)%120)
+		}
+		u := make([]uint64, len(arcs))
+		for i, a := range arcs {
+			u[i] = uint64(a)
+		}
+		out = append(out, c05Type{fmt.Sprintf("1.3.<%d single-octet arcs>", size-1), encasn1.ObjectIdentifier(arcs), der.OID(u...)})
+	}
 	return out
 }
 
